@@ -21,7 +21,15 @@ type vestModel struct {
 }
 
 func rewardVariant(k int64) sdk.Coins {
-	switch kernel.Mod(k, 13) {
+	switch kernel.Mod(k, 16) {
+	case 13:
+		// denominations that start with digits or a blank followed by a valid denomination (amount and
+		// denomination run together when a coin is printed)
+		return sdk.Coins{sdk.Coin{Denom: "1inch", Amount: sdk.NewInt(5)}}
+	case 14:
+		return sdk.Coins{sdk.NewCoin(node.Denom, sdk.NewInt(3)), sdk.Coin{Denom: "18" + node.Denom, Amount: sdk.NewInt(2)}}
+	case 15:
+		return sdk.Coins{sdk.Coin{Denom: " " + node.Denom, Amount: sdk.NewInt(4)}}
 	case 11:
 		// a paused denomination (zero amount) listed before a paying one
 		return sdk.Coins{sdk.Coin{Denom: "coina", Amount: sdk.ZeroInt()}, sdk.NewCoin(node.Denom, sdk.NewInt(7))}
